@@ -221,6 +221,7 @@ func checkC07(p *Program, r *Report) {
 	r.Note("events", evList)
 
 	c07ShortCircuit(p, r, m, va)
+	wrapperKindsAgree(p, r, m, "C07.R4")
 	c07FastPath(p, r, m, va, ea)
 	c07Deferred(p, r, m, va)
 }
